@@ -152,7 +152,12 @@ func findRegions(pk *packages.Package, funcs []*core.FuncInfo) (regs []region, s
 				if as, ok := x.Init.(*ast.AssignStmt); ok && len(as.Lhs) == 2 && len(as.Rhs) == 1 {
 					if ta, ok := as.Rhs[0].(*ast.TypeAssertExpr); ok && ta.Type != nil {
 						if okID, ok := as.Lhs[1].(*ast.Ident); ok {
-							if c, ok := x.Cond.(*ast.Ident); ok && info.Uses[c] == info.Defs[okID] {
+							cond := x.Cond
+							// `ok && <discriminator>`: still a region of that family (entered only when the assertion held)
+							if b, isAnd := cond.(*ast.BinaryExpr); isAnd && b.Op == token.LAND {
+								cond = b.X
+							}
+							if c, ok := cond.(*ast.Ident); ok && info.Uses[c] == info.Defs[okID] {
 								if fam, ok := familyOfTypeExpr(info, ta.Type); ok {
 									regs = append(regs, region{family: fam, why: "if _, ok := x.(" + types.ExprString(ta.Type) + "); ok", body: x.Body.List, pos: x.Pos(), fn: f})
 								}
